@@ -183,8 +183,21 @@ partial def walkTy (all : Bytes) : Ty → Nat → Option (List LF × Nat)
     | none => none
     | some (lfs, o') =>
       if flex then match Spec.pUvar (all.drop o') with
-        | some (_, r) => let w := (all.drop o').length - r.length
-          some (lfs ++ [⟨o', "uv", w, [0], none⟩], o' + w)
+        | some (n, r) => let w := (all.drop o').length - r.length
+          -- the tag buffer: count, then per field tag id, size (a length field) and size bytes
+          let rec tags (k : Nat) (o : Nat) (acc : List LF) : List LF × Nat :=
+            if k == 0 then (acc, o) else
+            match Spec.pUvar (all.drop o) with
+            | none => (acc, o)
+            | some (_, r1) =>
+              let o1 := o + ((all.drop o).length - r1.length)
+              match Spec.pUvar r1 with
+              | none => (acc, o1)
+              | some (sz, r2) =>
+                let w2 := r1.length - r2.length
+                tags (k - 1) (o1 + w2 + sz) (acc ++ [⟨o1, "uv", w2, [0], none⟩])
+          let (tfs, oEnd) := tags n (o' + w) []
+          some (lfs ++ [⟨o', "uv", w, [0], none⟩] ++ tfs, oEnd)
         | none => none
       else some (lfs, o')
   | .unit _, o => some ([], o)
@@ -215,6 +228,17 @@ partial def denullStr : Ty → Ty
   | .array c n t => .array c n (denullStr t)
   | .struct f fs ids ts => .struct f (fs.map denullStr) ids (ts.map denullStr)
   | t => t
+
+mutual
+/-- the schemas the theorems of Props/C04 speak about: `Ty.wf` (decode_encode), or flexible structs whose tagged
+fields are real well-formed types with distinct ids in [0, 2^63) next to the markers (decode_encode_tagged) -/
+partial def wfT : Ty → Bool
+  | .array _ _ t => posWidth t && !t.zeroSize && wfT t
+  | .struct flex fs ids ts =>
+    fs.all wfT && fs.all regularOk && ids.length == ts.length && ids.eraseDups.length == ids.length &&
+      ((ids.zip ts).all fun (i, t) => isMarker t || (flex && !t.zeroSize && wfT t && decide (0 ≤ i) && decide (i < 2 ^ 63)))
+  | _ => true
+end
 
 structure Case where
   m : RawMsg
@@ -257,6 +281,19 @@ def step (line : String) : String :=
   match line.splitOn " => " with
   | [req, impl] =>
     match words req with
+    | ["mal", "sasl", _, hex] =>
+      -- the un-framed SASL exchange (saslauthenticate.readResp): INT32 length, then that many bytes
+      match ofHex hex with
+      | none => "bad-hex"
+      | some bs =>
+        let out : String := match Spec.pInt 4 bs with
+          | none => "err"
+          | some (n, r) => if n < 0 then "err" else if n.toNat ≤ r.length then "ok" else "err"
+        answer out (impl == "ok" || impl == "err")
+    | ["connresp", _op, _ver, _k, _len, digest] =>
+      -- a well-formed response delivered in two pieces cut at k: decoded without error, exactly the frame
+      -- consumed (0 bytes left in the Conn's buffer), same values as encoded
+      answer s!"ok 0 {digest}" (impl == s!"ok 0 {digest}")
     | op :: i :: ver :: rest =>
       match getCase i ver with
       | none => "bad-case"
@@ -284,7 +321,7 @@ def step (line : String) : String :=
                   -- monitor: the implementation's bytes are the reference encoding of the value under the
                   -- reference schema (size prefix included), or the value cannot be encoded at all
                   -- the theorems of Props/C04 apply to this schema only if it is well-formed (`Ty.wf`, evaluated here)
-                  let holds := c.r.ty.wf && (if encodable c.r.ty v then impl == toHex (frameOf rt Spec.encode) else impl == "err")
+                  let holds := wfT c.r.ty && (if encodable c.r.ty v then impl == toHex (frameOf rt Spec.encode) else impl == "err")
                   answer model holds
             | _, _, _ => "bad-args"
           | _ => "bad-args"
